@@ -82,9 +82,12 @@ def direct_property(cfg, src, mode, quotes):
         return None
     try:
         off = guarded(m0.parse, src)
-        on = guarded(m1.parse, src)
     except Exception:  # noqa: BLE001
         return None
+    try:
+        on = guarded(m1.parse, src)
+    except Exception as e:  # noqa: BLE001
+        return {"what": f"the parse succeeds with the typographer off and raises {type(e).__name__} with it on"}
     return compare_streams(off, on, mode, quotes)
 
 
@@ -112,13 +115,17 @@ def run(ctx) -> int:
             continue
         enc = tok.enc_tokens(ts)
         st = StateCore("", md, {}, copy.deepcopy(ts))
-        if k % 2:
-            replace(st)
-            cases.append(sx([25, enc]))
-        else:
-            smartquotes(st)
-            cases.append(sx([26, [list(q) if isinstance(q, str) else q, enc]]))
-        expect.append([tok.canon_py_token(t) for t in st.tokens])
+        try:
+            if k % 2:
+                guarded(replace, st)
+                cases.append(sx([25, enc]))
+            else:
+                guarded(smartquotes, st)
+                cases.append(sx([26, [list(q) if isinstance(q, str) else q, enc]]))
+            expect.append([tok.canon_py_token(t) for t in st.tokens])
+        except Exception as e:  # noqa: BLE001  (the rules never raise on parser streams; the model returns normally)
+            cases.append(sx([25, enc]) if k % 2 else sx([26, [list(q) if isinstance(q, str) else q, enc]]))
+            expect.append(["implementation raised " + type(e).__name__])
         inputs.append({"src": src, "quotes": q, "rule": "replace" if k % 2 else "smartquotes"})
     out = run_model(cases)
     disagreements = [inp for o, e, inp in zip(out, expect, inputs)
